@@ -53,6 +53,9 @@
 
 // ---- stubs (environment of buildReplyHeader() that is unrelated to header filtering)
 const char *uniqueHostname(void) { return "squid.example"; }      // tools.cc: unique_hostname (goes into Squid's own Cache-Status field)
+// time/rfc1123.cc (needs libc calendar functions): text of the Date field Squid adds itself when the origin's Date was removed
+// (only reached when the Connection value names "Date"); the text is irrelevant to the property
+const char *Time::FormatRfc1123(time_t) { return "Thu, 01 Jan 2026 00:00:00 GMT"; }
 int fdUsageHigh(void) { return 0; }                                // fd.cc: file descriptor pressure (only switches keep-alive off)
 
 template <class T> static T *rawObject() { return static_cast<T *>(xcalloc(1, sizeof(T))); }
